@@ -21,11 +21,17 @@ func (s *Store) snapshotPrevious(ss Snapshot) (Snapshot, error) {
 	slocs, _ := footer.segmentLocs()
 	defer footer.DecRef()
 
-	if len(slocs) <= 0 {
-		return nil, nil
+	var mref *mmapRef
+	if len(slocs) > 0 {
+		mref = slocs[0].mref
+	} else {
+		// The top-level collection may have nothing persisted while
+		// child collections do; any of their segments tells the file.
+		mref = footer.childMmapRef()
+		if mref == nil {
+			return nil, nil
+		}
 	}
-
-	mref := slocs[0].mref
 	if mref == nil {
 		return nil, fmt.Errorf("footer mref nil")
 	}
